@@ -31,7 +31,12 @@
      ATOM   ::= (a N) | (s N) | (lam (PS ...) BODY BRK)
      TERM   ::= (app ATOM (COL ATOM) ...) | (if1 SX SX SX) | (if1 SX SX) | (if SX BL BLOCK IFREST)
               | (match SX BL ARM ...) | (smatch SX BL SARM ...)
-     IFREST ::= end | (else BL COL BODY) | (elif BL COL SX BL BLOCK IFREST)
+              | (ifx SX IFTAIL)                    the general form: what follows 'then'
+     IFREST ::= end | (else BL COL BODY) | (elif BL COL SX BL BLOCK IFREST) | (elifx BL COL SX IFTAIL)
+     IFTAIL ::= (multi BL BLOCK IFREST)            then EOL, body as a block, rest on later lines
+              | (one SX R1)                        then-body on the same line
+     R1     ::= end | (else SX) | (elif SX IFTAIL)                 on the same line
+              | (nlelse BL COL BODY) | (nlelif BL COL SX IFTAIL)   on a later line, inside the offside line
      SARM   ::= (sarm COL (lit N) BODY BL) ... closed by (sarm COL (var V) BODY BL) or (sarm COL default BODY BL)
      BODY   ::= (inline BLOCK) | (next BL BLOCK)
      BLOCK  ::= (block COL STMT (BL COL STMT) ...)
@@ -141,17 +146,30 @@ and atoms_of = function
   | _ -> raise (Parse_error "atoms")
 and term_of = function
   | L (A "app" :: a :: l) -> LApp (atom_of a, atoms_of l)
-  | L [A "if1"; c; t; e] -> LIf1 (sx_of c, sx_of t, Some (sx_of e))
-  | L [A "if1"; c; t] -> LIf1 (sx_of c, sx_of t, None)
+  | L [A "if1"; c; t; e] -> LIf (sx_of c, TOne (sx_of t, R1Else (sx_of e)))
+  | L [A "if1"; c; t] -> LIf (sx_of c, TOne (sx_of t, R1End))
+  | L [A "ifx"; c; tl] -> LIf (sx_of c, tail_of tl)
   | L (A "smatch" :: tg :: bl :: arms) -> LSMatch (sx_of tg, nat_of bl, sarms_of arms)
-  | L [A "if"; c; bl; t; r] -> LIf (sx_of c, nat_of bl, block_of t, ifrest_of r)
+  | L [A "if"; c; bl; t; r] -> LIf (sx_of c, TMulti (nat_of bl, block_of t, ifrest_of r))
   | L (A "match" :: tg :: bl :: arms) -> LMatch (sx_of tg, nat_of bl, arms_of arms)
   | _ -> raise (Parse_error "term")
 and ifrest_of = function
   | A "end" -> IEnd
   | L [A "else"; bl; c; b] -> IElse (nat_of bl, nat_of c, body_of b)
-  | L [A "elif"; bl; c; cd; b1; t; r] -> IElif (nat_of bl, nat_of c, sx_of cd, nat_of b1, block_of t, ifrest_of r)
+  | L [A "elif"; bl; c; cd; b1; t; r] -> IElif (nat_of bl, nat_of c, sx_of cd, TMulti (nat_of b1, block_of t, ifrest_of r))
+  | L [A "elifx"; bl; c; cd; tl] -> IElif (nat_of bl, nat_of c, sx_of cd, tail_of tl)
   | _ -> raise (Parse_error "ifrest")
+and tail_of = function
+  | L [A "multi"; bl; t; r] -> TMulti (nat_of bl, block_of t, ifrest_of r)
+  | L [A "one"; t; r] -> TOne (sx_of t, r1_of r)
+  | _ -> raise (Parse_error "iftail")
+and r1_of = function
+  | A "end" -> R1End
+  | L [A "else"; e] -> R1Else (sx_of e)
+  | L [A "elif"; cd; tl] -> R1Elif (sx_of cd, tail_of tl)
+  | L [A "nlelse"; bl; c; b] -> R1NlElse (nat_of bl, nat_of c, body_of b)
+  | L [A "nlelif"; bl; c; cd; tl] -> R1NlElif (nat_of bl, nat_of c, sx_of cd, tail_of tl)
+  | _ -> raise (Parse_error "l1rest")
 and body_of = function
   | L [A "inline"; b] -> BInline (block_of b)
   | L [A "next"; bl; b] -> BNext (nat_of bl, block_of b)
